@@ -660,7 +660,7 @@ func c43WireLane(c *kit.Ctx, ra *ruleAcc) {
 		{"total-6MiB-1", func(int) int { return MaxMessageLength - 3 }}, {"total-6MiB", func(int) int { return MaxMessageLength - 2 }}, {"total-6MiB+1", func(int) int { return MaxMessageLength - 1 }},
 	}
 	connN := 0
-	rounds := c.N(1, 6)
+	rounds := c.N(1, 12)
 	// Under the race detector the per-byte work (masking, filling, comparing) is ~30x slower; the race lane keeps
 	// all tags and fragmentation plans but leaves out probes above 256 KiB and the zstd expansions (those run in
 	// the plain lane). Case selection stays a function of (seed, lane) only.
@@ -802,7 +802,7 @@ func c43WireLane(c *kit.Ctx, ra *ruleAcc) {
 // delivered that was not sent, nothing oversized.
 func c43WireConcurrentLane(c *kit.Ctx, ra *ruleAcc) {
 	ra.add("wire-concurrent", "k=3..8 concurrent raw websocket connections (TCP and net.Pipe mixed) into real wsPeers sharing one incoming message filter (production size 5x512) send overlapping PRNG-chosen subsets of a pool of AV and TX messages (each message on 1..k connections, some twice on the same one), interleaved with other tags and an occasional over-limit message that ends that connection; the pool stays below (buckets-1)*bucketSize. distinct = (k, copies of a message sent, copies delivered)")
-	ncases := c.N(12, 100)
+	ncases := c.N(12, 200)
 	connN := 0
 	for i := 0; i < ncases && c.Violations() < 20; i++ {
 		r := c.Rand(13, uint64(i))
